@@ -14,6 +14,7 @@ import (
 	"sync"
 	"time"
 
+	zrsa "github.com/zmap/zcrypto/rsa"
 	"github.com/zmap/zcrypto/tls"
 	"github.com/zmap/zcrypto/x509"
 )
@@ -92,7 +93,7 @@ func buildPKI() *PKI {
 		if err != nil {
 			panic(err)
 		}
-		return tls.Certificate{Certificate: [][]byte{der}, PrivateKey: key, Leaf: zl}
+		return tls.Certificate{Certificate: [][]byte{der}, PrivateKey: ZKey(key), Leaf: zl}
 	}
 	rsaKey, err := rsa.GenerateKey(rand.Reader, 2048)
 	if err != nil {
@@ -117,4 +118,16 @@ func buildPKI() *PKI {
 	p.Client["ed25519"] = leaf(ced, "client", nb, na, rootCert, rootKey, stdx509.ExtKeyUsageClientAuth)
 	p.ClientUntrusted = leaf(cec, "client", nb, na, otherCert, otherKey, stdx509.ExtKeyUsageClientAuth)
 	return p
+}
+
+// ZKey converts a standard-library RSA private key into zcrypto's own rsa.PrivateKey type
+// (the zcrypto tls package only understands its fork's key types); other keys pass through.
+func ZKey(k crypto.Signer) crypto.PrivateKey {
+	r, ok := k.(*rsa.PrivateKey)
+	if !ok {
+		return k
+	}
+	z := &zrsa.PrivateKey{PublicKey: zrsa.PublicKey{N: r.N, E: big.NewInt(int64(r.E))}, D: r.D, Primes: r.Primes}
+	z.Precompute()
+	return z
 }
